@@ -5,6 +5,9 @@ import (
 	"context"
 	"encoding/json"
 	"fmt"
+	"os"
+	"path/filepath"
+	"regexp"
 	"sort"
 	"strings"
 	"sync"
@@ -165,6 +168,7 @@ type docFacts struct {
 	calcOK        bool
 	hasCode       bool
 	isInvoice     bool
+	signMissing   string // a member the published schema calls "required to sign" that is absent or empty
 }
 
 var (
@@ -212,6 +216,12 @@ func factsOf(env *gobl.Envelope) (f docFacts) {
 	if v != nil {
 		f.isInvoice = strings.HasSuffix(v.Get("$schema").Str(), "/bill/invoice")
 		f.hasCode = v.Get("code").Str() != ""
+		for _, m := range signRequiredMembers(v.Get("$schema").Str()) {
+			if v.Get(m) == nil || (v.Get(m).K == 's' && v.Get(m).S == "") {
+				f.signMissing = m
+				break
+			}
+		}
 	}
 	o2 := new(schema.Object)
 	if json.Unmarshal(db, o2) == nil {
@@ -303,6 +313,11 @@ func (s *lifeSlot) predictValidate(signed bool) (string, string) {
 		// the model's own rule (bill/invoice.go documents it as "required to sign
 		// invoice"): an invoice without a code is not valid for signing
 		if f.isInvoice && !f.hasCode {
+			docOK = false
+		}
+		// and what the published schemas say of their own members ("can be left
+		// empty initially, but is **required** to **sign** the document")
+		if f.signMissing != "" {
 			docOK = false
 		}
 	}
@@ -673,3 +688,44 @@ func sortedCopy(s []string) []string {
 }
 
 var _ = bytes.Equal
+
+var (
+	signReqMu sync.Mutex
+	signReq   = map[string][]string{}
+	signReqRe = regexp.MustCompile(`(?i)\*\*required\*\*\s+to\s+\*\*sign\*\*`)
+)
+
+// signRequiredMembers reads, from the published JSON schema of a document
+// type, the top-level members whose description says they are required to sign.
+func signRequiredMembers(id string) []string {
+	signReqMu.Lock()
+	defer signReqMu.Unlock()
+	if l, ok := signReq[id]; ok {
+		return l
+	}
+	var out []string
+	if strings.HasPrefix(id, goblSchemaBase) {
+		if b, err := os.ReadFile(filepath.Join(pubRepo, "data/schemas", strings.TrimPrefix(id, goblSchemaBase)+".json")); err == nil {
+			var f struct {
+				Ref  string `json:"$ref"`
+				Defs map[string]struct {
+					Properties map[string]struct {
+						Description string `json:"description"`
+					} `json:"properties"`
+				} `json:"$defs"`
+			}
+			if json.Unmarshal(b, &f) == nil {
+				if d, ok := f.Defs[strings.TrimPrefix(f.Ref, "#/$defs/")]; ok {
+					for name, p := range d.Properties {
+						if signReqRe.MatchString(p.Description) {
+							out = append(out, name)
+						}
+					}
+				}
+			}
+		}
+	}
+	sort.Strings(out)
+	signReq[id] = out
+	return out
+}
